@@ -98,7 +98,9 @@ class _CachedStorage(BaseStorage, BaseHeartbeat):
                         del self._study_id_and_number_to_trial_id[(study_id, trial_number)]
                 del self._studies[study_id]
 
-        self._backend.delete_study(study_id)
+            # The study is deleted in the backend before the lock is released. Otherwise a
+            # concurrent reader could fill the cache again from the study that still exists.
+            self._backend.delete_study(study_id)
 
     def set_study_user_attr(self, study_id: int, key: str, value: Any) -> None:
         self._backend.set_study_user_attr(study_id, key, value)
